@@ -252,6 +252,14 @@ def probe(binary, hooks, cfg, orig_port, logfile):
                                if "probe1" in (ch0m.get(key) or []))
                 if mine:
                     obs.append(("assert:every-configured-rank-held", mine[0][:len(mine[0]) - len("probe1")] == want))
+                # ... and again after leaving and coming back (the configuration governs every join, not only the first)
+                q(c1, "PART #maintopic", "part-preconfigured")
+                q(c1, "JOIN #maintopic blabla", "rejoin-preconfigured")
+                nl = q(c1, "NAMES #maintopic", "names-preconfigured-after-rejoin")
+                mine = [w_ for m in nl if m.verb == "353" for w_ in m.params[-1].split() if w_.lstrip("~&@%+") == "probe1"]
+                if mine:
+                    obs.append(("assert:every-configured-rank-held-after-rejoin",
+                                mine[0][:len(mine[0]) - len("probe1")] == want))
             q(c1, "MODE #maintopic +b", "banlist")
             q(c1, "MODE #maintopic +e", "exceptlist")
             q(c1, "MODE #maintopic +I", "invexlist")
@@ -491,6 +499,9 @@ def hash_wire(binary, hooks, seed, n):
         pw = "".join(rng.choice(atoms) for _ in range(rng.randrange(1, 6)))
         if pw.startswith("-"):
             pw = "p" + pw
+        if i % 3 == 2:
+            # long passwords: every character counts, also the 65th and later ones
+            pw = (pw * 40)[:rng.choice([64, 65, 72, 100, 130])]
         if i % 3 == 1:
             # "for every password string": blanks at the end belong to the password
             pw += rng.choice([" ", "  ", "\t", " \t", " x "])
@@ -502,6 +513,8 @@ def hash_wire(binary, hooks, seed, n):
         h = p.stdout.split("Password Hash: ")[1].strip()
         others = [pw + "x", pw[:-1] or "q", pw.swapcase() if pw.swapcase() != pw else pw + " ", " " + pw,
                   pw.rstrip() or "q", pw + " ", pw.strip() or "q"]
+        if len(pw) > 10:
+            others += [pw[:-3] + "zzz", pw[:64] or "q", pw[:64] + "tail", pw[:len(pw) // 2]]
         others = [x for k, x in enumerate(others) if x not in others[:k]]
         with sut.Server(binary, dict(password=h, operators=[{"name": "root", "password": h}]), hooks=hooks) as srv:
             def attempt(x):
